@@ -686,7 +686,13 @@ func RunExitRace(c ExitRaceCase) (hits int, v *vstat.Violation) {
 // RunExitSqueeze forces the order "the last idle worker takes its decision to leave; a Call arrives; whatever the worker
 // still does afterwards" through the package lock (see internal/lockstep): the harness holds the lock across the moment
 // the worker's idle timer fires, queues a Call behind it, and lets go. The new future must start within the bound.
-func RunExitSqueeze(idle time.Duration) *vstat.Violation {
+func RunExitSqueeze(idle time.Duration) *vstat.Violation { return runExitSqueeze(idle, false) }
+
+// RunExitSqueezeCallFirst: the same meeting in the other order - the Call queues on the package lock first (it finds a worker
+// registered and only leaves a wake-up token), the last idle worker, whose second idle round has just ended, right behind it.
+func RunExitSqueezeCallFirst(idle time.Duration) *vstat.Violation { return runExitSqueeze(idle, true) }
+
+func runExitSqueeze(idle time.Duration, callFirst bool) *vstat.Violation {
 	return vstat.Guard("timers:panic", func() *vstat.Violation {
 		resetPool(10, idle)
 		var done atomic.Int64
@@ -697,18 +703,27 @@ func RunExitSqueeze(idle time.Duration) *vstat.Violation {
 			}
 		}
 		end := time.Unix(0, done.Load())
+		if callFirst {
+			end = end.Add(idle) // the worker leaves after its SECOND idle round: that is the decision the Call gets ahead of
+		}
 		time.Sleep(time.Until(end.Add(idle / 2))) // a generous margin: the machine may be busy
 		var got atomic.Bool
 		old := runtime.GOMAXPROCS(1) // see RunPokeSqueeze
 		defer runtime.GOMAXPROCS(old)
 		withPoolLock(func() {
+			if callFirst {
+				go timeout.Call(func() { got.Store(true) }, 0)
+				time.Sleep(4 * time.Millisecond) // the Call queues on the lock
+			}
 			time.Sleep(time.Until(end.Add(idle + 8*time.Millisecond))) // the worker's idle timer fires meanwhile: it queues on the lock to take its decision
-			go timeout.Call(func() { got.Store(true) }, 0)
-			time.Sleep(4 * time.Millisecond) // the Call queues behind it; both have waited > 1 ms: FIFO hand-over
+			if !callFirst {
+				go timeout.Call(func() { got.Store(true) }, 0)
+				time.Sleep(4 * time.Millisecond) // the Call queues behind it; both have waited > 1 ms: FIFO hand-over
+			}
 		})
 		for t := time.Now(); !got.Load(); time.Sleep(100 * time.Microsecond) {
 			if time.Since(t) > latenessBound {
-				return vstat.V("timers:never-started", "a Call that arrived right behind the last idle worker's decision to leave was not started within %v (pending=%d workers=%d goroutines=%d)", latenessBound, pending(), poolWorkers(), watcherGoroutines())
+				return vstat.V("timers:never-started", "a Call that arrived right %s the last idle worker's decision to leave was not started within %v (pending=%d workers=%d goroutines=%d)", map[bool]string{false: "behind", true: "ahead of"}[callFirst], latenessBound, pending(), poolWorkers(), watcherGoroutines())
 			}
 		}
 		return nil
